@@ -146,9 +146,22 @@ def lit(n):
 
 
 def int_lit(n):
+    """integer value of a literal, of a named integer constant, or of constant arithmetic over those (`PREAMBLE + 4`, `4 + 1 + 1`)"""
     v = lit(n)
     if v and v[0] == "int":
-        return int(v[1])
+        try:
+            return int(v[1])
+        except ValueError:
+            return None
+    m = peel(n)
+    if is_node(m) and m[0] == "cast":
+        return int_lit(m[2])
+    if is_node(m) and m[0] == "bin" and m[2] in ("Add", "Sub", "Mul", "Shl", "Shr", "BitAnd", "BitOr"):
+        a, b = int_lit(m[3]), int_lit(m[4])
+        if a is None or b is None:
+            return None
+        return {"Add": a + b, "Sub": a - b, "Mul": a * b, "Shl": a << b if 0 <= b < 64 else None, "Shr": a >> b if 0 <= b < 64 else None,
+                "BitAnd": a & b, "BitOr": a | b}[m[2]]
     return None
 
 
